@@ -185,7 +185,9 @@ let run_wirein kvs _ =
   let (obs, st) = run cfg infl c_initialLimitStored inq e ops in
   let reps = List.map reply_str st.r_replies in
   let faildata = List.fold_left (fun acc o -> match o with ObMsg (d, Some _) -> hexb d | _ -> acc) "?" obs in
-  Printf.sprintf "obs=%s replies=%s faildata=%s zcorrupt=%d" (String.concat "," (List.map obs_str obs)) (if reps = [] then "-" else String.concat "," reps) faildata (if !zcorrupt then 1 else 0)
+  (* hitend: the model consumed the whole stream and ran into the end / failure of the transport *)
+  let hitend = (st.r_inq = []) && (match e with EOpen -> false | _ -> true) in
+  Printf.sprintf "obs=%s replies=%s faildata=%s zcorrupt=%d hitend=%d" (String.concat "," (List.map obs_str obs)) (if reps = [] then "-" else String.concat "," reps) faildata (if !zcorrupt then 1 else 0) (if hitend then 1 else 0)
 
 (* ---- suite close ---- *)
 let run_close kvs _ =
